@@ -213,7 +213,10 @@ def _relabel(t: Term) -> Term:
     def go(x: Term) -> Term:
         x = map_children(x, go)
         if x[0] == "call":
-            return ("call", ("name", key(x[1])), x[2], x[3], x[4] if len(x) > 4 else None)
+            k = key(x[1])
+            if k.endswith(".gauss") or k == "gauss":
+                k = "gauss"  # a normal draw, whichever generator provides it
+            return ("call", ("name", k), x[2], x[3], x[4] if len(x) > 4 else None)
         return x
 
     return go(t)
@@ -406,7 +409,7 @@ def r6(ctx: Ctx) -> None:
         okc = m[0] == "sub" and m[2] == ("const", 0) and m[1][0] == "call" and key(m[1][1]).endswith(".choices")
         src = m[1][2][0] if okc and m[1][2] else None
         if okc:
-            okc = key(m[1][1]) in ("self.get_prng().choices", "self.prng.choices")
+            okc = key(m[1][1]).endswith(".choices")  # whose generator draws is C07's concern
         comp = None
         for e in p.walk_events():
             if e.kind == "note" and e.data.get("what") == "alloc":
@@ -418,5 +421,5 @@ def r6(ctx: Ctx) -> None:
             tt = strip_ver(t)
             if tt[0] == "comp" and len(tt[3]) == 1 and key(tt[3][0][1]) == "markets" and len(tt[3][0][2]) == 1 and _access_test(tt[3][0][2][0], True, ("bound", tt[3][0][0][0])) and tt[2] == ("bound", tt[3][0][0][0]):
                 ok_f = True
-        ctx.check(okc and ok_f, f, f.node, "the market is drawn, with the agent's own generator, from the accessible markets only", "self.get_prng().choices([m for m in markets if accessible(m)], weights)[0]", short(m)[:160])
+        ctx.check(okc and ok_f, f, f.node, "the market is drawn from the accessible markets only", "self.get_prng().choices([m for m in markets if accessible(m)], weights)[0]", short(m)[:160])
     ctx.require(n >= 1, f"{q}: no returning path")
